@@ -388,13 +388,17 @@ class Extractor:
             crops_food_feed_protein,
         )
 
-        # Calculate outdoor crop production for humans
-        to_humans_outdoor_crop_production = np.subtract(
+        # Calculate outdoor crop production for humans (never negative: in a month without harvest, feed and
+        # biofuel come out of stored crops and nothing is left to be eaten immediately)
+        to_humans_outdoor_crop_production = np.maximum(
             np.subtract(
-                outdoor_crops_production.kcals,
-                self.outdoor_crops_feed.kcals,
+                np.subtract(
+                    outdoor_crops_production.kcals,
+                    self.outdoor_crops_feed.kcals,
+                ),
+                self.outdoor_crops_biofuel.kcals,
             ),
-            self.outdoor_crops_biofuel.kcals,
+            0,
         )
 
         if (
